@@ -170,6 +170,12 @@ class Check:
         self.known_hits = []
         self.notes = []
         self.kf = load_known_findings()
+        import glob
+        for old in glob.glob(os.path.join(REPLAY_DIR, pid, f'{pid}-{tier}-{self.seed}-*.json')):
+            try:
+                os.remove(old)
+            except OSError:
+                pass
 
     # ---- proof side
     def prove(self, targets, module, ns, required, gen_info=None):
